@@ -297,8 +297,10 @@ type c03Inst struct {
 	// hh is a running hash of (scenario, operations applied so far). A history whose hash is in c03Validated
 	// has already been executed once with the full oracle and passed; the search only ever re-executes such
 	// histories as prefixes of longer ones, and then (fast) the observations and the audit are not repeated.
-	hh   uint64
-	fast bool
+	hh    uint64
+	fast  bool
+	nops  int // operations applied so far
+	depth int // depth bound of the search this instance belongs to (histories of that length are never extended)
 }
 
 type c03HashSet struct {
@@ -912,7 +914,8 @@ func (in *c03Inst) apply(op c03Op) error {
 	in.hh = op.hash(in.hh)
 	in.fast = c03Validated.has(in.hh)
 	err := in.applyOp(op)
-	if err == nil && !in.fast {
+	in.nops++
+	if err == nil && !in.fast && in.nops < in.depth {
 		c03Validated.add(in.hh)
 	}
 	return err
